@@ -68,6 +68,20 @@ func drawC07(rt *rapid.T) *Case {
 			}
 		}
 	}
+	if gen.Uniform(rt, "longarray", 60) == 0 {
+		// an array of more than a thousand elements somewhere below the root
+		long := gen.Arr()
+		for i, n := 0, 1025+gen.Uniform(rt, "longlen", 90); i < n; i++ {
+			if i%97 == 5 {
+				long.Kids = append(long.Kids, gen.Arr(gen.Num(float64(i)), gen.Obj().Set("a", gen.Num(float64(-i)))))
+			} else {
+				long.Kids = append(long.Kids, gen.Num(float64(i)))
+			}
+		}
+		if d.Get("zlong") == nil {
+			d.Set("zlong", long)
+		}
+	}
 	keys := d.Keys
 	k1 := keys[gen.Uniform(rt, "k1", len(keys))]
 	k2 := keys[gen.Uniform(rt, "k2", len(keys))]
@@ -91,6 +105,9 @@ func drawC07(rt *rapid.T) *Case {
 		{multi(e(k2), e("zz1"), e(k1), e("zz0"), e(k2), e("zz2"))}, {wild, multi(e("z"), e("b"), e("zz"), e("a"), e("b"), e("B"), e("aa"))},
 		{rec(multi(e("z"), e("a"), e("zz3"), e("B"), e("a"), e("zz4")))},
 		// a function that re-enters the parsed function in the middle of a traversal
+		// subscripts after a recursive descent (arrays of every length below)
+		{rec(gen.Step{Kind: gen.KIndex, Sub: []gen.Sub{{Kind: gen.KIndex, N: 0}}})}, {rec(gen.Step{Kind: gen.KIndex, Sub: []gen.Sub{{Kind: gen.KIndex, N: -1}}})},
+		{rec(gen.Step{Kind: gen.KUnion, Sub: []gen.Sub{{Kind: gen.KIndex, N: 1}, {Kind: gen.KIndex, N: 0}}})},
 		// user functions inside the filter of an object: they are called member by member, in key order
 		{exists(fn("f1", false))}, {exists(name(k1), fn("f4", false))}, {rec(exists(fn("f1", false)))}, {wild, exists(fn("f4", false))}, {exists(wild, fn("g1", true))},
 		{rec(wild), fn("fre", false)}, {wild, fn("fre", false)}, {rec(name(k1)), fn("fre", false)}, {rec(exists(name(k1))), fn("fre", false)}, {multi(w, e(k1)), fn("fre", false)},
